@@ -18,6 +18,8 @@ THEOREMS = CT.THEOREMS_C08 + [
 ] + ST_.THEOREMS_C08_STORAGE + CH_.THEOREMS_C08 + SC_.THEOREMS_C08_SCALED
 from ..comp import linked as _LK
 THEOREMS = THEOREMS + [t for t in _LK.THEOREMS_LINKED if t[1].split('.')[-1] in ['linked_window', 'linked_wf', 'linked_ok', 'late_start_index_error']]
+from ..comp import wrapwin as _WW
+THEOREMS = THEOREMS + _WW.THEOREMS_C08_WRAP
 PARTIAL = ['window theorems (every mapping row inside the asset\'s own grid, zero read-out outside it, empty window inert) are proved builder by builder: contract / transport / multi-commodity / order book, Storage (all options), CHP / Plant / min-load CHP / ramp profiles, and for the wrappers ScaledAsset and StructuredAsset relative to what they wrap; LinkedAsset is not modelled; that the window of a StructuredAsset reaches every wrapped asset (also the order book, which has no start/end parameter of its own) is not a theorem but searched for failing inputs by stream swin against the window applied by hand; that the start/end of a ScaledAsset reach its base asset is likewise searched by the oracles (top-level scaled assets with own windows in stream meta, wrapped ones in stream swin), not proved; the metamorphic statement (an asset outside the horizon changes nothing ELSE) follows from these plus the composition theorems of C09 and is searched for failing inputs by the oracle; '
            'that the part of the horizon outside every window changes nothing (time blocks of a storage, run times of a plant, coarse steps and take periods are counted from the asset\'s own window, not from the horizon) is not a theorem but searched by stream hext and the horizon cut of stream meta; '
            'take_prorated is a theorem about the model of the builders (tied by the correspondence cases, which include two-variable contracts); on the real code the prorated right-hand side is checked by the oracles of streams oracle (one variable per step) and take (one and two)']
@@ -108,6 +110,11 @@ def scenarios(seed, tier):
     _rl = random.Random(seed * 15485863 + 81)
     for i in range(60 if tier == 'quick' else 400):
         yield 'lk%d' % i, {'_stream': 'linked', 'case': LK.gen_case(_rl.__class__(_rl.getrandbits(48)), tmax=6)}
+    # windows of wrappers (StructuredAsset / ScaledAsset nested to depth 3) against the literal and the pure model: every
+    # set_restricted_grid call, the restored attributes, the exact problem; oracle on the real code alone (comp/wrapwin.py)
+    _rw = random.Random(seed * 15485863 + 88)
+    for i in range(150 if tier == 'quick' else 1000):
+        yield 'ww%d' % i, {'_stream': 'wrapwin', 'case': _WW.gen_case(random.Random(_rw.getrandbits(48)))}
 
 
 def outside_asset(rnd, scn):
@@ -540,6 +547,10 @@ def run_swin(scn, r):
 
 
 def run_case(c, drv):
+    if isinstance(c, dict) and c.get('_stream') == 'wrapwin':
+        dis, viol, ir, mr = _WW.run_case(c['case'], drv)
+        return {'evaluated': 1, 'nontrivial': mr is not None and not mr.get('error'), 'features': ['stream:wrapwin', 'ww:' + str(c['case'].get('stream'))],
+                'disagreements': [{'component': 'wrapper windows', 'detail': d} for d in dis], 'violations': viol}
     if isinstance(c, dict) and c.get('_stream') == 'linked':
         from ..comp import linked as LK
         r = LK.run_case(c['case'], drv, with_oracle=False)      # the tie of the linked model; its documented-behaviour oracle states no property of this list
